@@ -10,7 +10,7 @@ RULE = ("Hypothesis sequences (1..25) of .org/.db/.dc8/.ascii/.asciiz/.dw/.dc16/
         "address and both byte orders; an independent interpreter of the same abstract sequence (location counter in "
         "bytes, .org n -> n*bpa, labels/$ = counter/bpa, per-width emit in the current byte order, reserve/align move "
         "without writing) gives the expected image (addr->byte, exact key set = 'nothing else') and symbol values; "
-        "out-of-range .db/.dw operands must be rejected. non-trivial = >=3 directive kinds and an .org/.align/.res*; "
+        "out-of-range .db/.dw operands must be rejected, whether the value is spelled as a literal, an expression, a .set symbol, an equ define, a backward label, a forward label or a difference of two forward labels (value known only in pass 2). non-trivial = >=3 directive kinds and an .org/.align/.res*; "
         "distinct key = (sorted directive kinds, bpa, endian-switch, page-crossing)")
 ASSUMPTIONS = ["labels and $ are only generated where the byte counter is a multiple of bytes-per-address "
                "(the statement does not define a label in the middle of an address unit)",
@@ -452,9 +452,25 @@ class Checker:
         if syms != defs:
             return fail("label values differ from the location counter model", "wrong_symbol", defs, syms)
 
-    def check_range(self, cpu, directive, v, text, should_accept):
+    def check_range(self, cpu, directive, v, text, should_accept, spelling="lit"):
         self.cur_range = (directive, v)
-        src = ".%s\n.%s %s\n" % (cpu[0], directive, text)
+        unit = cpu[1]
+        A = 0x3000                                   # label address (in the CPU's address units)
+        if spelling == "set":
+            src = ".%s\n.set rsym = %s\n.%s rsym\n" % (cpu[0], text, directive)
+        elif spelling == "equ":
+            src = ".%s\nrdef equ %s\n.%s rdef\n" % (cpu[0], text, directive)
+        elif spelling == "fwd":                      # value only known in pass 2
+            src = ".%s\n.%s rfwd - %d\n.org 0x%x\nrfwd:\n" % (cpu[0], directive, A - v, A)
+        elif spelling == "fwd_diff":                 # the classic length prefix: end - start, both defined later
+            src = ".%s\n.%s rend - rstart\n.org 0x%x\nrstart:\n.org 0x%x\nrend:\n" % (cpu[0], directive, A, A + v)
+        elif spelling == "bwd":
+            src = ".%s\n.org 0x%x\nrbwd:\n.org 0\n.%s rbwd - %d\n" % (cpu[0], A, directive, A - v)
+        elif spelling == "expr":
+            a = v // 3
+            src = ".%s\n.%s %d + %d * 2 - %d\n" % (cpu[0], directive, a, v - a, v - a)
+        else:
+            src = ".%s\n.%s %s\n" % (cpu[0], directive, text)
         r = self.run_src(src, [])
         exp = "accepted" if should_accept else "rejected with a diagnostic"
         if isinstance(r, WorkerCrash):
@@ -519,25 +535,31 @@ def run(tier, seed, shard, nshards):
         ck.check_program(cpu, stmts, dotted)
 
     def test_range(case):
-        cpu, directive, v, hexsp = case
+        cpu, directive, v, hexsp, spelling = case
         s.evaluations += 1
         lo, hi = (-128, 255) if directive in ("db", "dc8") else (-32768, 65535)
         ok = lo <= v <= hi
         text = ("-0x%x" % -v if v < 0 else "0x%x" % v) if hexsp else str(v)
+        if spelling in ("set", "fwd", "bwd") and not (-(1 << 30) <= v < (1 << 30)):
+            spelling = "lit"                         # symbols hold 32 bits
+        if spelling == "fwd_diff" and not (0 <= v < (1 << 20)):
+            spelling = "fwd" if -(1 << 30) <= v < (1 << 30) else "lit"
         s.count("range.%s.%s" % (directive, "in" if ok else "out"))
-        s.nt(("range", directive, v))
-        ck.check_range(cpu, directive, v, text, ok)
+        s.count("range.spelling.%s.%s" % (spelling, "in" if ok else "out"))
+        s.nt(("range", directive, v, spelling))
+        ck.check_range(cpu, directive, v, text, ok, spelling)
 
     range_cases = st.tuples(
         st.sampled_from(CPUS), st.sampled_from(["db", "dc8", "dw", "dc16"]),
         st.one_of(st.sampled_from([-129, -128, -127, 255, 256, 257, -32769, -32768, 65535, 65536, 65537, 0x7fffffff,
                                    -0x80000000, 0x10000, 1 << 20, -(1 << 20), 0xffffffff, 0x100000000, 0x100000001,
                                    0x1000000ff, -0x100000000, (1 << 63) - 1, -(1 << 63), 1 << 40]),
-                  st.integers(-70000, 70000)),
-        st.booleans())
+                  st.integers(-70000, 70000), st.integers(-400, 400)),
+        st.booleans(),
+        st.sampled_from(["lit", "lit", "expr", "set", "equ", "fwd", "fwd", "fwd_diff", "bwd"]))
     try:
         n1 = 900 if tier == "quick" else 15000
-        n2 = 150 if tier == "quick" else 3000
+        n2 = 400 if tier == "quick" else 6000
         hyp_run(test_prog, program(), n1, shard_seed(seed, shard, "c05p"), s)
         hyp_run(test_range, range_cases, n2, shard_seed(seed, shard, "c05r"), s)
     finally:
